@@ -8,7 +8,9 @@ import (
 	"time"
 
 	"github.com/idena-network/idena-go/common"
+	"github.com/golang/protobuf/proto"
 	"github.com/idena-network/idena-go/core/state"
+	models "github.com/idena-network/idena-go/protobuf"
 	dbm "github.com/tendermint/tm-db"
 	"verif/mc/chainmc"
 	"verif/mc/replica"
@@ -310,7 +312,77 @@ func snapshotPart(run *report.Run) {
 				return
 			}
 		}
+		// node-level edits inside every member (the importer flushes to the target every 10000
+		// nodes, so an edit in a later member is met after data has been written)
+		names, contents := readMembers(a.data)
+		for mi := range contents {
+			nodes := new(models.ProtoSnapshotNodes)
+			if err := proto.Unmarshal(contents[mi], nodes); err != nil || len(nodes.Nodes) == 0 {
+				continue
+			}
+			for _, pos := range []int{0, len(nodes.Nodes) / 2, len(nodes.Nodes) - 1} {
+				for _, ed := range nodeEdits(h) {
+					cp := new(models.ProtoSnapshotNodes)
+					if err := proto.Unmarshal(contents[mi], cp); err != nil {
+						continue
+					}
+					ed.f(cp.Nodes[pos])
+					enc, _ := proto.Marshal(cp)
+					cs := append([][]byte{}, contents...)
+					cs[mi] = enc
+					if !check(a, writeMembers(names, cs), fmt.Sprintf("member %d node %d: %s", mi, pos, ed.name)) {
+						return
+					}
+					run.Add("node_level_edits", 1)
+				}
+			}
+		}
 	}
+}
+
+type nodeEdit struct {
+	name string
+	f    func(n *models.ProtoSnapshotNodes_Node)
+}
+
+func nodeEdits(h uint64) []nodeEdit {
+	return []nodeEdit{
+		{"version=height+1", func(n *models.ProtoSnapshotNodes_Node) { n.Version = h + 1 }},
+		{"version=0", func(n *models.ProtoSnapshotNodes_Node) { n.Version = 0 }},
+		{"version=2^63", func(n *models.ProtoSnapshotNodes_Node) { n.Version = 1 << 63 }},
+		{"key=nil", func(n *models.ProtoSnapshotNodes_Node) { n.Key = nil }},
+		{"value=nil", func(n *models.ProtoSnapshotNodes_Node) { n.Value, n.EmptyValue = nil, false }},
+		{"value=x", func(n *models.ProtoSnapshotNodes_Node) { n.Value, n.EmptyValue = []byte("x"), false }},
+		{"height+1", func(n *models.ProtoSnapshotNodes_Node) { n.Height++ }},
+		{"height=100", func(n *models.ProtoSnapshotNodes_Node) { n.Height = 100 }},
+		{"key+1", func(n *models.ProtoSnapshotNodes_Node) { n.Key = append(append([]byte{}, n.Key...), 1) }},
+	}
+}
+
+func readMembers(a []byte) (names []string, contents [][]byte) {
+	tr := tar.NewReader(bytes.NewReader(a))
+	for {
+		hd, err := tr.Next()
+		if err != nil {
+			break
+		}
+		var b bytes.Buffer
+		io.Copy(&b, tr)
+		names = append(names, hd.Name)
+		contents = append(contents, b.Bytes())
+	}
+	return
+}
+
+func writeMembers(names []string, contents [][]byte) []byte {
+	var out bytes.Buffer
+	tw := tar.NewWriter(&out)
+	for i, n := range names {
+		tw.WriteHeader(&tar.Header{Name: n, Mode: 0o644, Size: int64(len(contents[i])), Typeflag: tar.TypeReg})
+		tw.Write(contents[i])
+	}
+	tw.Close()
+	return out.Bytes()
 }
 
 // splitTar returns the raw header+content blocks of each member (without the end marker).
